@@ -64,7 +64,7 @@ impl<'de> Deserialize<'de> for Date {
             where
                 E: de::Error,
             {
-                Ok(unsafe { Date::from_days_unchecked(v) })
+                Date::try_from_days(v).map_err(de::Error::custom)
             }
 
             #[inline]
@@ -125,7 +125,7 @@ impl<'de> Deserialize<'de> for Timestamp {
             where
                 E: de::Error,
             {
-                Ok(unsafe { Timestamp::from_usecs_unchecked(v) })
+                Timestamp::try_from_usecs(v).map_err(de::Error::custom)
             }
 
             #[inline]
@@ -186,7 +186,7 @@ impl<'de> Deserialize<'de> for Time {
             where
                 E: de::Error,
             {
-                Ok(unsafe { Time::from_usecs_unchecked(v) })
+                Time::try_from_usecs(v).map_err(de::Error::custom)
             }
 
             #[inline]
@@ -247,7 +247,7 @@ impl<'de> Deserialize<'de> for IntervalYM {
             where
                 E: de::Error,
             {
-                Ok(unsafe { IntervalYM::from_months_unchecked(v) })
+                IntervalYM::try_from_months(v).map_err(de::Error::custom)
             }
 
             #[inline]
@@ -308,7 +308,7 @@ impl<'de> Deserialize<'de> for IntervalDT {
             where
                 E: de::Error,
             {
-                Ok(unsafe { IntervalDT::from_usecs_unchecked(v) })
+                IntervalDT::try_from_usecs(v).map_err(de::Error::custom)
             }
 
             #[inline]
@@ -371,7 +371,7 @@ impl<'de> Deserialize<'de> for crate::oracle::Date {
             where
                 E: de::Error,
             {
-                Ok(unsafe { crate::oracle::Date::from_usecs_unchecked(v) })
+                crate::oracle::Date::try_from_usecs(v).map_err(de::Error::custom)
             }
 
             #[inline]
